@@ -20,12 +20,22 @@ PROP = dict(
          'all 8 images built by an independent symmetry transform, every stored reply enumerated; MonteCarloAI with both policies, '
          'ForceCorners on/off, limits 20-50 ms and 100 ms, plus a sweep of ForceCorners over every first stone in a corner}. CASE lines = model correspondence: P = legal move set of every '
          'position used (model: all_moves filtered by mv_fixed, game_over), M = every (position, returned move) pair of the '
-         'deterministic players judged by mv_fixed. non-trivial = all; distinct = distinct input strings',
+         'deterministic players judged by mv_fixed; MCTS = the Monte-Carlo model (coq/Mcts.v) against ai/mcts pass by pass; '
+         'BOOK = the opening-book model (coq/Opening.v) against ai/opening.go: books = the repository lines, synthetic random games, '
+         'transposing lines (two stones of one colour swapped, mirror images, prefixes, repeated lines: shared entries, weights > 1), '
+         'lines with one planted defect (unparsable word, empty word from two spaces / a trailing space, square off this board, occupied '
+         'square, wall or capstone in the opening, impossible slide, annotation suffix), sizes tak.New rejects, empty inputs; compared: '
+         'OK / error exit with its line number and word / panic, the WHOLE built book (L2: entries by hash with position, replies and '
+         'weights in append order), and the answers of OpeningBook.GetMove / OpeningPlayer.GetMove (stub inner player) to batches of '
+         'queries (prefix positions of the lines in all 8 images, line ends, off-book positions) drawn from ONE scripted rand.Source per '
+         'batch (all-zero, small, mixed, uniform Int31 values; the model reproduces Int31n from the recorded values). '
+         'non-trivial = all; distinct = distinct input strings',
     assumptions=['alpha-beta budgets allow at least the depth-1 iteration (a deadline run that was cancelled before is counted, not judged)',
                  'Monte-Carlo limit allows at least one playout (a run with a limit < 100 ms that did none is repeated once with 400 ms)',
                  'RandomizeScale is left at its default (the option lattice of the property)',
                  'constructed positions have ply >= 2 (ply 0/1 with pieces on the board cannot arise)',
                  'Monte-Carlo answers and deadline-limited alpha-beta answers are wall-clock dependent: they are judged by the oracle but not written as CASE lines',
+                 'scripted Int31 values stay below 2^31 - 2^21, where math/rand.Int31n(n) is v mod n with exactly one draw (checked: one draw per stored reply)',
                  'simulated collisions never make a ROOT entry with depth >= Cfg.Depth (Analyze returns such a seed unvalidated; reachable only through a true 64-bit hash collision, DESIGN 5.4 NoCollisionOn)'],
 )
 
@@ -36,11 +46,23 @@ MANIFEST = dict(
          "oracle and by Position.Move, whole PV replays when the value is not decisive. Coq: a live position of the bit-level model has a "
          "legal move listed by AllMoves (C04_live_has_legal_move); abstract root-search invariant: generator yields only applied moves and "
          "loses none, the root PV head is legal for every search below the root (C04_root_first_move_legal), instantiated on the bit-level "
-         "model (C04_analyze_first_move_legal_partial); deepening loop, randomised choice and AnalyzeAll keep legal heads. The model's "
-         "legal move sets and its verdict on every returned move are compared with the implementation on every run.",
-    ref='5.4', technique='independent Go oracle (rules + replay) over players x configurations + Coq invariant proofs + model/implementation differential on legality',
-    note="Partial on the proof side: the root-search model is abstract (not executed against ai/minimax.go), the value-window hypothesis is "
-         "assumed, whole-PV replay, the opening book and MCTS are covered by the oracle only. Found and repaired through this check: mcts "
-         "cornerMove (3673ed6), mcts place_win panic without flat stones (0758f0d), zero-entry transposition table division by zero (5c30c8b).")
+         "model (C04_analyze_first_move_legal_partial); deepening loop, randomised choice and AnalyzeAll keep legal heads. "
+         "Monte-Carlo player: model coq/Mcts.v executed against ai/mcts pass by pass; every returned move legal for any random stream, "
+         "score function and clock (C04_mcts_getmove_legal); no-panic partial. "
+         "Opening book: model coq/Opening.v (BuildOpeningBook, OpeningBook.GetMove, OpeningPlayer.GetMove) executed against ai/opening.go "
+         "(whole book + scripted-random answers); C04_opening_book_move_legal: for a book BuildOpeningBook accepted, under NoCollisionOn "
+         "(queried position and the 8 images of every line position: equal Hash() => same squares and side to move) and the C01 "
+         "64-stack limit along the lines (automatic for sizes 3..6), every move GetMove returns for a position satisfying the C01 "
+         "invariant with default reserves is accepted by Position.Move; same for OpeningPlayer.GetMove given a legal inner answer; the "
+         "book invariant itself (C04_opening_book_entries_legal), the hypotheses hold in every game from tak.New "
+         "(C04_game_positions_satisfy_query_hypotheses), GetMove never panics below 2^28 book words (C04_opening_book_get_move_no_panic), non-vacuity on a concrete book. The model's legal move sets and its verdict on "
+         "every returned move are compared with the implementation on every run.",
+    ref='5.4', technique='independent Go oracle (rules + replay) over players x configurations + Coq invariant proofs + model/implementation differential on legality, MCTS passes and the opening book',
+    note="Partial on the proof side: the alpha-beta root-search model is abstract (not executed against ai/minimax.go), the value-window "
+         "hypothesis is assumed, whole-PV replay is covered by the oracle only; MCTS no-panic assumes evaluator totality and <= 64 pieces; "
+         "opening book: 'GetMove never panics' is proved for books below 2^28 words (C04_opening_book_get_move_no_panic; beyond it rand.Int31n's argument wraps, in the code as in the model); "
+         "NoCollisionOn and reserves_match_board / opening_consistent of the queried position are explicit hypotheses (a position with "
+         "non-default piece counts can share a book position's hash and squares without sharing its legal moves). Found and repaired through "
+         "this check: mcts cornerMove (3673ed6), mcts place_win panic without flat stones (0758f0d), zero-entry transposition table division by zero (5c30c8b).")
 
 COQCHK = ['TV.Properties.C04']
